@@ -4,6 +4,7 @@ def b_State_create_goal_state_node : CR.SrcW.Builder where
   kind := .node
   tag := "goalState"
   xsd := "goalState"
+  path := []
   parent := ""
   attrs := []
   gattrs := []
@@ -23,7 +24,8 @@ def b_State_create_goal_state_node_camel_it1 : CR.SrcW.Builder where
   key := "StateXMLNode.create_goal_state_node/?camel(it1)"
   kind := .node
   tag := "?camel(it1)"
-  xsd := ""
+  xsd := "goalState"
+  path := ["?camel(it1)"]
   parent := "StateXMLNode.create_goal_state_node"
   attrs := []
   gattrs := []
@@ -36,7 +38,8 @@ def b_State_create_goal_state_node_time : CR.SrcW.Builder where
   key := "StateXMLNode.create_goal_state_node/time"
   kind := .node
   tag := "time"
-  xsd := ""
+  xsd := "goalState"
+  path := ["time"]
   parent := "StateXMLNode.create_goal_state_node"
   attrs := []
   gattrs := []
@@ -49,7 +52,8 @@ def b_State_create_goal_state_node_position : CR.SrcW.Builder where
   key := "StateXMLNode.create_goal_state_node/position"
   kind := .node
   tag := "position"
-  xsd := ""
+  xsd := "goalState"
+  path := ["position"]
   parent := "StateXMLNode.create_goal_state_node"
   attrs := []
   gattrs := []
